@@ -64,7 +64,7 @@ def match_known(pid, case, known):
                 for fk, fv in v.items():
                     ok = ok and re.search(fv, str(case.get(fk, ""))) is not None
             elif k == "tag":
-                ok = ok and v in case.get("tags", [])
+                ok = ok and v in (case.get("tags") or [])
             else:
                 mod = MODS.get(pid)
                 ok = ok and mod is not None and hasattr(mod, "match_extra") and bool(mod.match_extra(case, k, v))
